@@ -1386,7 +1386,15 @@ func (in *Interp) runApps(ac AppCallE) (gosym.Str, *sym.Term) {
 	for _, cl := range ac.Calls {
 		var args []gosym.Str
 		for _, a := range cl.Args {
-			args = append(args, in.strOf(a))
+			// a program call used as an argument contributes its captured standard output
+			switch v := in.eval(a).(type) {
+			case []RV:
+				args = append(args, v[0].(RStr).S)
+			case RStr:
+				args = append(args, v.S)
+			default:
+				panic(RefUnsupported{"reference: program argument that is not a string"})
+			}
 		}
 		argv = append(argv, args)
 	}
